@@ -232,11 +232,12 @@ func run(c Case) vt.Verdict {
 			v := fail(step, op, "header object count %d, model %d", fh.Header.NumManagedObjects, len(live))
 			return &v
 		}
+		// in-memory accounting holds in every mode: free space is what the managed blocks hold beyond the live bytes
+		if want := fh.Header.ManagedSpaceSize - liveBytes; fh.Header.FreeSpace != want {
+			v := vt.Bad("step %d (%s): header free space %d, model %d (managed %d - live %d)", step, op.K, fh.Header.FreeSpace, want, fh.Header.ManagedSpaceSize, liveBytes)
+			return &v
+		}
 		if !indirect {
-			if want := fh.Header.ManagedSpaceSize - liveBytes; fh.Header.FreeSpace != want {
-				v := fail(step, op, "header free space %d, model %d (managed %d - live %d)", fh.Header.FreeSpace, want, fh.Header.ManagedSpaceSize, liveBytes)
-				return &v
-			}
 			if fh.Header.ManagedSpaceSize != c.BlockSize {
 				v := fail(step, op, "managed space %d, want one block of %d", fh.Header.ManagedSpaceSize, c.BlockSize)
 				return &v
